@@ -224,3 +224,134 @@ def run_stream(ctx, n):
     stats["distinct"] = len(seen)
     stats["samples"] = [{"faces": cases[0], "open": out[0], "subsets": out[1]}]
     return stats
+
+
+# ---------------------------------------------------------------------------------------------------------------------------
+# `unique` rows (C13): the soup -> (vertices, faces) glue of TriangularMesh.from_mesh / from_triangles against
+# Model/MeshUnique.lean `fromMesh` (np.unique(axis=0, return_inverse=True) + reshape), IEEE double on both sides.
+
+UNIQUE_SCALES = [1e-9, 1e-6, 1e-3, 1.0, 1e3, 1e6]
+
+
+def _bits(x):
+    import struct
+    return struct.unpack("<Q", struct.pack("<d", float(x)))[0]
+
+
+def gen_soup(rng, small):
+    """a triangle soup (n, 3, 3): corners drawn from a pool of points at one length scale (random doubles, lattice points, points
+    with zero coordinates, near-duplicates one ulp / 1e-9 relative apart), every zero coordinate given a random sign, corners
+    repeated inside a triangle now and then, triangle order and corner order shuffled; `small` (<= 5 triangles, so numpy's argsort
+    is its stable insertion sort) may also carry NaN / inf corners"""
+    s = rng.choice(UNIQUE_SCALES)
+    npool = rng.randrange(3, 7) if small else rng.randrange(4, 40)
+    pool = []
+    for _ in range(npool):
+        kind = rng.random()
+        if kind < 0.35:
+            p = [rng.uniform(-1, 1) * s for _ in range(3)]
+        elif kind < 0.7:
+            p = [rng.randrange(-2, 3) * s for _ in range(3)]
+        elif kind < 0.85 and pool:  # a near-duplicate of an earlier point: one ulp, or 1e-9 relative, in one coordinate
+            q = list(rng.choice(pool))
+            k = rng.randrange(3)
+            q[k] = float(np.nextafter(q[k], np.inf)) if rng.random() < 0.5 else q[k] * (1 + 1e-9) + (1e-9 * s if q[k] == 0 else 0)
+            p = q
+        else:
+            p = [rng.choice([0.0, rng.uniform(-1, 1) * s]) for _ in range(3)]
+        pool.append([float(v) for v in p])
+    if small and rng.random() < 0.4:
+        bad = rng.choice([float("nan"), float("inf"), -float("inf")])
+        q = list(rng.choice(pool))
+        q[rng.randrange(3)] = bad
+        pool.append(q)
+        if rng.random() < 0.5:
+            pool.append(list(q))
+    ntri = rng.randrange(1, 6) if small else rng.randrange(6, 60)
+    soup = []
+    for _ in range(ntri):
+        if rng.random() < 0.1:
+            a = rng.choice(pool)
+            tri = [a, a, rng.choice(pool)]
+            rng.shuffle(tri)
+        else:
+            tri = [rng.choice(pool) for _ in range(3)] if rng.random() < 0.3 else rng.sample(pool, 3)
+        soup.append([[(-0.0 if rng.random() < 0.5 else 0.0) if v == 0 else v for v in c] for c in tri])
+    return s, soup
+
+
+def run_unique(ctx, n):
+    """the real `TriangularMesh.from_mesh` / `from_triangles` (alternating; every check and the re-orientation switched off, so that
+    `.vertices`, `.faces` are what the two glue lines produced) against the driver's `mesh unique`: number of vertices and faces
+    compared exactly; vertices bit for bit for soups of <= 15 corners and by `==` above (which of several `==`-equal rows is kept is
+    numpy's unstable introsort's choice there); `obj.mesh == soup` row by row against the model's round-trip verdict"""
+    import warnings
+
+    from magpylib._src.obj_classes.class_magnet_TriangularMesh import TriangularMesh
+    from magpylib._src.obj_classes.class_misc_Triangle import Triangle
+
+    kw = dict(check_open="skip", check_disconnected="skip", check_selfintersecting="skip", reorient_faces="skip")
+    stats = {"soups": 0, "from_mesh": 0, "from_triangles": 0, "bit_exact": 0, "with_signed_zero_pairs": 0, "with_nan_or_inf": 0,
+             "with_merged_corners": 0, "zero_sign_of_representative_differs": 0, "per_scale": {str(s): 0 for s in UNIQUE_SCALES},
+             "disagreements": 0, "distinct": 0, "corners": 0}
+    cases, lines, reals = [], [], []
+    for i in range(n):
+        small = i % 3 == 0
+        s, soup = gen_soup(ctx.rng, small)
+        arr = np.array(soup, float)
+        with warnings.catch_warnings():
+            warnings.simplefilter("ignore")
+            if i % 2 == 0:
+                obj = TriangularMesh.from_mesh(mesh=arr, polarization=(0, 0, 1), **kw)
+                stats["from_mesh"] += 1
+            else:
+                obj = TriangularMesh.from_triangles(triangles=[Triangle(vertices=t, polarization=(0, 0, 1)) for t in arr],
+                                                    polarization=(0, 0, 1), **kw)
+                stats["from_triangles"] += 1
+        v, f = np.array(obj.vertices, float), np.array(obj.faces)
+        back = bool(np.array_equal(obj.mesh, arr))  # `==`: -0.0 == 0.0, nan != nan
+        reals.append((v, f, back))
+        cases.append({"scale": s, "soup": soup, "small": small, "via": "from_mesh" if i % 2 == 0 else "from_triangles"})
+        lines.append(f"mesh unique {len(soup)} " + " ".join(str(_bits(x)) for x in arr.reshape(-1)))
+        pts = arr.reshape(-1, 3)
+        stats["per_scale"][str(s)] += 1
+        stats["corners"] += len(pts)
+        stats["with_nan_or_inf"] += bool(~np.isfinite(pts).all())
+        stats["with_merged_corners"] += len(v) < len(pts)
+        z = {}
+        for p in pts:
+            z.setdefault(tuple(float(c) + 0.0 for c in p), set()).add(tuple(bool(b) for b in np.signbit(p)))
+        stats["with_signed_zero_pairs"] += any(len(sg) > 1 for sg in z.values())
+    out = run_driver(lines) if lines else []
+    seen = set()
+    for c, (v, f, back), m in zip(cases, reals, out):
+        ok = True
+        try:
+            head, rest = m.split(" faces ")
+            ftxt, rt = rest.split(" roundtrip ")
+            toks = head.split()
+            nv = int(toks[1])
+            import struct
+            mv = np.array([struct.unpack("<d", struct.pack("<Q", int(t)))[0] for t in toks[2:]], float).reshape(-1, 3)
+            mf = np.array([[int(a) for a in t.split(",")] for t in ftxt.split()], int).reshape(-1, 3)
+            ok = nv == len(v) and mv.shape == v.shape and mf.shape == f.shape and bool((mf == f).all()) and (int(rt) == 1) == back
+            if ok:
+                bit_same = mv.tobytes() == v.tobytes()
+                if len(c["soup"]) * 3 <= 15:
+                    ok = bit_same
+                    stats["bit_exact"] += 1
+                else:
+                    ok = bool(np.array_equal(mv, v))
+                    stats["zero_sign_of_representative_differs"] += not bit_same
+        except (ValueError, IndexError):
+            ok = False
+        seen.add(m)
+        if not ok:
+            stats["disagreements"] += 1
+            if stats["disagreements"] <= 3:
+                ctx.broken.append({"kind": "correspondence", "name": "mesh-unique",
+                                   "detail": {**c, "model": m, "real": {"vertices": [[repr(float(x)) for x in p] for p in v], "faces": f.tolist(), "mesh_eq_soup": back}}})
+    stats["soups"] = len(cases)
+    stats["distinct"] = len(seen)
+    stats["samples"] = [{"scale": cases[0]["scale"], "soup": cases[0]["soup"], "model": out[0]}] if cases else []
+    return stats
